@@ -178,6 +178,16 @@ func (x *Exec) typingAxiom(st *State, name, v string) {
 	if !ok || name == "$alloc" {
 		return
 	}
+	if strings.HasPrefix(name, "GV$") {
+		if wf := x.wfTerm(st, v, et, 2); wf != "true" {
+			if x.pinned(name) {
+				// an immutable global holds the value it had on entry: allocated before entry
+				wf = strings.ReplaceAll(wf, " "+x.heap(st, "$alloc", "Int")+")", " $alloc@e0)")
+			}
+			st.emit("(assert " + wf + ")")
+		}
+		return
+	}
 	var cell, binders string
 	switch {
 	case strings.HasPrefix(name, "E$"):
@@ -723,6 +733,9 @@ func (x *Exec) operand(st *State, v ssa.Value) Val {
 	case *ssa.Global:
 		name := "GV$" + c.Pkg.Pkg.Path() + "." + c.Name()
 		elem := c.Type().(*types.Pointer).Elem()
+		if _, ok := x.heapElem[name]; !ok {
+			x.heapElem[name] = elem
+		}
 		return Val{Ty: c.Type(), Loc: &Loc{Kind: LGlobal, Global: name, Elem: elem}}
 	case *ssa.Function:
 		return Val{Ty: c.Type(), Clo: &Closure{Fn: c}}
